@@ -551,6 +551,7 @@ func propertyForFamily(f string) string {
 // subOf returns the instance a substitute object id ("sub:<slot>") stands for.
 func subOf(p *sdl.Program, obj string) string {
 	slot := strings.TrimPrefix(obj, "sub:")
+	slot, _, _ = strings.Cut(slot, "#")
 	for _, pr := range p.Procs {
 		for _, r := range pr.Rules {
 			if r.Sub == slot {
